@@ -186,17 +186,28 @@ func c03Property(rt *rapid.T, ev *evid.Rec, o machineOpts) {
 			}
 		}
 	}
-	nact := rapid.IntRange(4, 18).Draw(rt, "nactions")
+	// warm-up: give every pair a position history
+	for _, s := range w.Sources {
+		m.grow(s, rapid.IntRange(1, 4).Draw(rt, "warmgrow"))
+	}
+	for _, p := range w.Pairs {
+		for k := rapid.IntRange(1, 3).Draw(rt, "warmsteps"); k > 0; k-- {
+			checkCommits(p, m.step(p))
+		}
+	}
+	nact := rapid.IntRange(3, 16).Draw(rt, "nactions")
 	for i := 0; i < nact; i++ {
 		switch rapid.IntRange(0, 11).Draw(rt, "action") {
-		case 0, 1:
+		case 0:
 			m.grow(m.pickSource("growsrc"), rapid.IntRange(1, 5).Draw(rt, "grown"))
-		case 2, 3: // reorg between steps
+		case 1, 2, 3: // reorg between steps
 			s := m.pickSource("reorgsrc")
 			low, ok := m.lowestCursor(s)
 			head := s.Node.Chain.Head().Num
 			if !ok || head <= low+1 {
 				m.grow(s, 2)
+				p := m.pickPair("steppair")
+				checkCommits(p, m.step(p))
 				continue
 			}
 			depth := rapid.IntRange(1, min(6, int(head-low-1))).Draw(rt, "depth")
@@ -206,7 +217,7 @@ func c03Property(rt *rapid.T, ev *evid.Rec, o machineOpts) {
 				txs = append(txs, gen.GenTxs(rt, m.copts))
 			}
 			m.doReorg(st, s, head-uint64(depth)+1, txs, false)
-		case 4, 5: // schedule a reorg inside the next step
+		case 4, 5, 6: // schedule a reorg inside the next step
 			kinds := []string{"", "headers", "blocks", "logs", "receipts", "latest", "hash"}
 			pending = &pend{kind: rapid.SampledFrom(kinds).Draw(rt, "midkind"), k: rapid.IntRange(1, 6).Draw(rt, "k"), nth: rapid.IntRange(1, 2).Draw(rt, "nth"),
 				depth: rapid.IntRange(1, 4).Draw(rt, "depth"), newLen: rapid.IntRange(0, 5).Draw(rt, "newlen")}
@@ -217,8 +228,8 @@ func c03Property(rt *rapid.T, ev *evid.Rec, o machineOpts) {
 			p := m.pickPair("steppair")
 			checkCommits(p, m.step(p))
 			pending = nil
-		case 6:
-			if rapid.IntRange(0, 3).Draw(rt, "restart") == 0 {
+		case 7:
+			if rapid.IntRange(0, 2).Draw(rt, "restart") == 0 {
 				if err := w.Restart(); err != nil {
 					rt.Fatalf("VERIF-INCONCLUSIVE restart: %v", err)
 				}
@@ -243,34 +254,57 @@ func c03Property(rt *rapid.T, ev *evid.Rec, o machineOpts) {
 			m.grow(s, 1)
 		}
 	}
-	if msg := m.settle(len(m.decls)+3, checkCommits); msg != "" {
-		if len(msg) > 12 && msg[:12] == "INCONCLUSIVE" {
-			rt.Fatalf("VERIF-INCONCLUSIVE %s", msg)
-		}
-		fail("%s", msg)
-	}
-	for _, p := range w.Pairs {
-		cur := w.Cursor(p)
-		head := p.Src.Node.Chain.Head()
-		if !cur.OK || cur.Num != head.Num {
-			fail("at quiescence %s is at %s, canonical head is %d", p.Key(), curStr(cur), head.Num)
-		}
-		if string(cur.Hash) != string(head.Hash) {
-			fail("at quiescence %s records hash %x for block %d, canonical hash is %x", p.Key(), cur.Hash, cur.Num, head.Hash)
-		}
-		if v := w.CheckPair(p); v != "" {
-			fail("at quiescence (canonical chain): %s", v)
-		}
-		// every retained position must be canonical
-		for _, r := range w.db.Rows("shovel.task_updates") {
-			if r["src_name"] == p.Src.Name && r["ig_name"] == p.Decl.Name {
-				n := numOf(r["num"])
-				b := p.Src.Node.Chain.At(n)
-				h, _ := r["hash"].([]byte)
-				if b == nil || string(b.Hash) != string(h) {
-					fail("at quiescence %s retains position %d with a non-canonical hash %x", p.Key(), n, h)
+	// "The source settles" = it stops replacing blocks; a chain keeps growing.
+	// A task may still consume a pre-reorg cached segment while settling and
+	// record a stale block at the very height of the head, which only the next
+	// block can reveal. So: settle and compare; on a mismatch grow one block and
+	// try again, at most 3 times. A defect that further growth does not heal
+	// still fails.
+	final := func() string {
+		for _, p := range w.Pairs {
+			cur := w.Cursor(p)
+			head := p.Src.Node.Chain.Head()
+			if !cur.OK || cur.Num != head.Num {
+				return fmt.Sprintf("at quiescence %s is at %s, canonical head is %d", p.Key(), curStr(cur), head.Num)
+			}
+			if string(cur.Hash) != string(head.Hash) {
+				return fmt.Sprintf("at quiescence %s records hash %x for block %d, canonical hash is %x", p.Key(), cur.Hash, cur.Num, head.Hash)
+			}
+			if v := w.CheckPair(p); v != "" {
+				return "at quiescence (canonical chain): " + v
+			}
+			// every retained position must be canonical
+			for _, r := range w.db.Rows("shovel.task_updates") {
+				if r["src_name"] == p.Src.Name && r["ig_name"] == p.Decl.Name {
+					n := numOf(r["num"])
+					b := p.Src.Node.Chain.At(n)
+					h, _ := r["hash"].([]byte)
+					if b == nil || string(b.Hash) != string(h) {
+						return fmt.Sprintf("at quiescence %s retains position %d with a non-canonical hash %x", p.Key(), n, h)
+					}
 				}
 			}
+		}
+		return ""
+	}
+	for round := 0; ; round++ {
+		if msg := m.settle(len(m.decls)+3, checkCommits); msg != "" {
+			if len(msg) > 12 && msg[:12] == "INCONCLUSIVE" {
+				rt.Fatalf("VERIF-INCONCLUSIVE %s", msg)
+			}
+			fail("%s", msg)
+		}
+		v := final()
+		if v == "" {
+			break
+		}
+		if round == 3 {
+			fail("%s (after %d further blocks)", v, round)
+		}
+		m.logf("not canonical yet (%s): the chain grows by one block", v)
+		m.label("healed-by-growth")
+		for _, s := range w.Sources {
+			m.grow(s, 1)
 		}
 	}
 	nontrivial := st.orphanRows && (st.deep || st.midStep)
